@@ -576,6 +576,12 @@ static int rtr_receive_pdu(struct rtr_socket *rtr_socket, void *pdu, const size_
 		goto error;
 	}
 
+	// PDU types this client does not know get their own error code
+	if (header.type > MAX_SUPPORTED_PDU_TYPE || header.type == RESERVED) {
+		error = UNSUPPORTED_PDU_TYPE;
+		goto error;
+	}
+
 	// receive packet payload
 	const unsigned int remaining_len = header.len - sizeof(header);
 
